@@ -30,8 +30,11 @@ func init() {
 			c = GenRVI(t, r, prop, tier, pg)
 		case k < 18:
 			c = GenConfig(t, r, prop, tier, pg)
-		default:
+		case k < 19:
 			c = GenFault(t, r, "C14", tier, pg)
+		default:
+			// a storage error in the middle of a stream: it has to travel up every operator
+			c = GenFault(t, r, "C15", tier, pg)
 		}
 		if c != nil {
 			c.Prop = prop
@@ -41,10 +44,11 @@ func init() {
 	generators["C19"] = func(t *testing.T, r *rand.Rand, prop, tier string, pg *atomic.Int64) *Case {
 		var c *Case
 		switch k := r.Intn(20); {
-		case k < 9:
+		case k < 7:
 			c = GenDiff(r, "C19", tier) // profile "extreme": values outside the comparison-safe domain
 		case k < 13:
-			c = GenDiff(r, []string{"C05", "C04", "C06", "C02"}[r.Intn(4)], tier)
+			// nested aggregations above look-ahead goroutines are where buffers get recycled
+			c = GenDiff(r, []string{"C05", "C04", "C04", "C04", "C06", "C02"}[r.Intn(6)], tier)
 		case k < 16:
 			c = GenDist(t, r, prop, tier, pg)
 		case k < 18:
